@@ -434,5 +434,19 @@ mut("20N-trimprefix-before-split", "C20", None, ("telegram/deeplinks/template.go
 mut("09N-blocking-select-send", "C09", None, ("network.go", "	v <- data\n", "	select {\n	case v <- data:\n	}\n"))
 mut("04N-refusal-wraps-tested-error", "C04", None, ("internal/mtproto/messages/messages.go", "	if err != nil {\n		return nil, errors.Wrap(err, \"decrypting message\")\n	}", "	if err != nil {\n		return nil, fmt.Errorf(\"decrypting message: %w\", err)\n	}"))
 
+# --- fourth round ---------------------------------------------------------------------------------------
+mut("01-marshal-pooled-buffer", "C01", "marshal:result-owned-by-caller", ("internal/encoding/tl/encoder.go", "func Marshal(v any) ([]byte, error) {\n	buf := bytes.NewBuffer(nil)\n", "var seedPool = sync.Pool{New: func() any { return bytes.NewBuffer(nil) }}\n\nfunc Marshal(v any) ([]byte, error) {\n	buf := seedPool.Get().(*bytes.Buffer)\n	buf.Reset()\n	defer seedPool.Put(buf)\n"), ("internal/encoding/tl/encoder.go", "	\"reflect\"\n", "	\"reflect\"\n	\"sync\"\n"))
+mut("09-container-one-object", "C09", "container-item:fresh-per-iteration", ("internal/mtproto/objects/types.go", "	for i := 0; i < count; i++ {\n		msg := new(messages.Encrypted)\n", "	msg := new(messages.Encrypted)\n	for i := 0; i < count; i++ {\n"))
+mut("06-splitpq-int64", "C06", "pq-narrowed", ("internal/math/math.go", "		x := big.NewInt(0).Rand(rnd, rndmax)\n		whatnext := big.NewInt(0).Sub(what, big1)\n		x = x.Mod(x, whatnext)\n		x = x.Add(x, big1)\n", "		x := big.NewInt(rnd.Int63n(what.Int64()-1) + 1)\n"))
+mut("08-intermediate-coalesced-small-buffer", "C08", "wire:intermediate", ("internal/mode/intermediate.go", "	if _, err := m.conn.Write(size); err != nil {\n		return err\n	}\n", "	if len(msg) <= 1024 {\n		var frame [1024]byte\n		n := copy(frame[:], size)\n		n += copy(frame[n:], msg)\n		_, err := m.conn.Write(frame[:n])\n		return err\n	}\n	if _, err := m.conn.Write(size); err != nil {\n		return err\n	}\n"))
+mut("14-bit31-refused", "C14", "flag-bits:0..31", ("internal/cmd/tlgen/tlparser/parser.go", "		param.BitToTrigger, err = strconv.Atoi(digits)\n		if err != nil {", "		param.BitToTrigger, err = strconv.Atoi(digits)\n		if err != nil || param.BitToTrigger >= 31 {"))
+mut("19-secure-random-overwrites", "C19", "only-writer:srp_ephemeral", ("telegram/internal/srp/2fa.go", "	return getInputCheckPassword(password, srpB, mp, random)\n", "	for i, v := range srpB {\n		random[i%randombyteLen] = v\n	}\n	return getInputCheckPassword(password, srpB, mp, random)\n"))
+mut("20-query-decoded-into-result", "C20", "not-rewritten", ("telegram/deeplinks/resolver.go", "			return &ResolveParameters{\n				Domain: strings.ToLower(username),\n			}, nil", "			res := &ResolveParameters{\n				Domain: strings.ToLower(username),\n			}\n			if err := decoder.Decode(res, query); err != nil {\n				return nil, err\n			}\n			return res, nil"))
+mut("04-plain-reader-uint64-of-short", "C04", "binary:Uint64", ("internal/mtproto/messages/messages.go", "	_ = d.PopRawBytes(tl.LongLen) // authKeyHash, always 0 if unencrypted\n", "	if keyHash := d.PopRawBytes(tl.LongLen); binary.LittleEndian.Uint64(keyHash) != 0 {\n		return nil, errors.New(\"unencrypted message under non-zero auth key hash\")\n	}\n"))
+mut("15-decodevalue-falls-through", "C15", "decodeValue/panic", ("internal/encoding/tl/decoder.go", "	if d.err != nil {\n		// kinds that can't be decoded (a plain struct, map, array) are reported, not passed on to the switch below\n		return\n	}\n", ""))
+mut("17-unchecked-migrate-assertion", "C17", "tryToProcessErr/assert", ("mtproto.go", "		dcID, ok := e.AdditionalInfo.(int)\n		if !ok {\n			// the server text carried no usable data center number (e.g. the literal \"PHONE_MIGRATE_X\")\n			return e\n		}\n		newIP, found := m.dclist[dcID]", "		newIP, found := m.dclist[e.AdditionalInfo.(int)]"))
+mut("08N-writer-single-write", "C08", None, ("internal/mode/intermediate.go", "	if _, err := m.conn.Write(size); err != nil {\n		return err\n	}\n	if _, err := m.conn.Write(msg); err != nil {\n		return err\n	}\n", "	if _, err := m.conn.Write(append(size, msg...)); err != nil {\n		return err\n	}\n"))
+mut("01N-marshal-fresh-copy", "C01", None, ("internal/encoding/tl/encoder.go", "	return buf.Bytes(), nil\n}\n\nfunc (c *Encoder) encodeValue(", "	return append([]byte(nil), buf.Bytes()...), nil\n}\n\nfunc (c *Encoder) encodeValue("))
+
 json.dump(M, open('/verif/selftest/mutations.json', 'w'), indent=1, ensure_ascii=False)
 print(len(M), "mutations")
